@@ -19,6 +19,7 @@ Synthetic optimisation problems for the C15 / C16 checks (no Modelica front-end)
                  tau: number | {"const": a, "par": [name, scale], "cin": [name, scale]}}]
   dyn          {"a": float}           x' = -a*x + sum(u) + sum(c)     (kept linear)
   path_vars    [name]                 extra path variables (size 1)
+  equidistant  bool                   value of the problem-level `equidistant` property (default False)
 
 Everything is supplied through the public interface of the class (properties / methods the
 repo documents for overriding); results for an arbitrary decision vector are obtained through
@@ -150,6 +151,11 @@ def problem_class():
         @property
         def ensemble_size(self):
             return int(self.spec.get("E", 1))
+
+        @property
+        def equidistant(self):
+            # problem-level flag of the IO mixins ("the imported time series are equidistant")
+            return bool(self.spec.get("equidistant", False))
 
         def parameters(self, ensemble_member):
             d = AliasDict(self._ar)
